@@ -111,8 +111,8 @@ def gen_ops(rng, tier, ctx=None):
     # outputs are the operands most of the time.  asize < bsize (swap), b = 0 / a = 0 exit, |a| = |b|, b | a (s = 0), common factors,
     # one-limb operands, all signs
     def gx():
-        k = rng.randrange(9)
-        c = _mag(rng, rng.choice([0, 1, 1, 2])) or 1
+        k = rng.randrange(14)                      # 6..13: the general case (both cofactors non-trivial)
+        c = _mag(rng, rng.choice([0, 0, 1, 1, 2])) or 1
         a = c * (_mag(rng, rng.choice([1, 1, 2, 3, big // 2])))
         b = c * (_mag(rng, rng.choice([1, 1, 2, 3, big // 2])))
         if k == 0: b = 0
@@ -131,7 +131,7 @@ def gen_ops(rng, tier, ctx=None):
                 if t == g or (t == s and t != 7): continue
                 for a in range(4):
                     for b in range(4):
-                        for _ in range(1 if tier == "quick" else 12):
+                        for _ in range(2 if tier == "quick" else 12):
                             av, bv = gx()
                             vals = [_sg(rng, _mag(rng, rng.choice([0, 1, 1, 2, 4]))) for _ in range(4)]
                             vals[a] = av
